@@ -101,6 +101,14 @@ impl Monitor for C19m {
         for (sig, d) in sweep(&w.bank, acc) {
             acc.violation(format!("c19:{sig}:after:{}", obs.ix.name), d, json!({"instruction": ix_brief(&obs.ix)}));
         }
+        if obs.ix.name == "set_adaptive_fee_constants" {
+            // the constants were validated against the named pool's spacing: the oracle must be that pool's
+            let (pk, ok) = (obs.ix.key("whirlpool"), obs.ix.key("oracle"));
+            acc.count("adaptive_constant_updates");
+            if w.bank.data(&ok).and_then(codec::Oracle::decode).map(|o| o.whirlpool) != Some(pk) {
+                acc.violation("c19:constants_validated_against_another_pool:set_adaptive_fee_constants", format!("oracle {ok} does not belong to whirlpool {pk} but its constants were replaced"), json!({"instruction": ix_brief(&obs.ix)}));
+            }
+        }
         acc.situation(format!("sweep:{}", obs.ix.name));
     }
 }
@@ -158,7 +166,10 @@ fn storm(seed: u64, rounds: usize) -> Acc {
                     let o = |r: &mut R, v: u16| if r.gen() { Some(v) } else { None };
                     let (a1, a2, a3, a6, a7) = (hv16(&mut w.r), hv16(&mut w.r), hv16(&mut w.r), gs, hv16(&mut w.r));
                     let (a4, a5) = (hv32(&mut w.r), hv32(&mut w.r));
-                    b::SetAdaptiveFeeConstants { whirlpool: w.pools[p].key, whirlpools_config: cfg.key, oracle: w.pools[p].oracle, fee_authority: fa }.ix(o(&mut w.r, a1), o(&mut w.r, a2), o(&mut w.r, a3), if w.r.gen() { Some(a4) } else { None }, if w.r.gen() { Some(a5) } else { None }, o(&mut w.r, a6), o(&mut w.r, a7))
+                    // one in three names the oracle of another adaptive pool: its constants would be judged against the wrong spacing
+                    let others: Vec<usize> = ps.iter().copied().filter(|q| *q != p).collect();
+                    let oracle = if !others.is_empty() && w.r.gen_range(0..3) == 0 { w.pools[*rnd::pick(&mut w.r, &others)].oracle } else { w.pools[p].oracle };
+                    b::SetAdaptiveFeeConstants { whirlpool: w.pools[p].key, whirlpools_config: cfg.key, oracle, fee_authority: fa }.ix(o(&mut w.r, a1), o(&mut w.r, a2), o(&mut w.r, a3), if w.r.gen() { Some(a4) } else { None }, if w.r.gen() { Some(a5) } else { None }, o(&mut w.r, a6), o(&mut w.r, a7))
                 }
                 10 | 11 => {
                     // pool creation with arbitrary price / spacing / mint order (incl. the same mint twice)
